@@ -1034,6 +1034,69 @@ Proof.
 Qed.
 
 (* n replies one after the other *)
+(* ------------------------------------------------------------------ after a bad reply *)
+(* what is refused is a non-empty run of complete lines; the rest of the stream stays *)
+Lemma scan_bad_inv : forall ls code0 msgs rest,
+  scan code0 msgs ls = SBad rest -> exists pre, ls = pre ++ rest /\ (code0 = None -> pre <> []).
+Proof.
+  induction ls as [|raw ls IH]; intros code0 msgs rest H; [discriminate|].
+  cbn [scan] in H. destruct (parse_reply_line raw) as [[[c1 sep] txt]|] eqn:P.
+  - destruct (code_conflict code0 c1) eqn:Cf.
+    + inversion H; subst. exists []. split; [reflexivity|]. intros E. subst code0. discriminate.
+    + destruct (sep =? 45); [|discriminate]. apply IH in H. destruct H as [pre [E _]].
+      exists (raw :: pre). split; [rewrite E; reflexivity|]. intros _. discriminate.
+  - inversion H; subst. exists [raw]. split; [reflexivity|]. intros _. discriminate.
+Qed.
+
+Lemma unraw_nonempty : forall pre, pre <> [] -> unraw pre <> [].
+Proof.
+  intros [|l pre] H; [contradiction|]. unfold unraw. cbn [map concat]. intro E.
+  apply app_eq_nil in E. destruct E as [E _]. apply app_eq_nil in E. destruct E as [_ E]. discriminate.
+Qed.
+
+Lemma recv_loop_suffix_bad : forall chunks code msgs buf b' ch',
+  recv_loop code msgs buf chunks = RBad b' ch' -> exists pre, chunks = pre ++ ch'.
+Proof.
+  induction chunks as [|ch chunks IH]; intros code msgs buf b' ch' H.
+  - rewrite recv_loop_nil in H. unfold batch_of in H.
+    destruct (scan code msgs (fst (split_lf buf))); inversion H; subst. exists []. reflexivity.
+  - rewrite recv_loop_cons in H. destruct (split_lf buf) as [ls tail].
+    destruct (scan code msgs ls) as [c1 m1 rest|rest|c1 m1].
+    + discriminate.
+    + inversion H; subst. exists []. reflexivity.
+    + destruct ch as [|b0 ch0]; [discriminate|]. apply IH in H. destruct H as [pre Hp].
+      exists ((b0 :: ch0) :: pre). rewrite Hp. reflexivity.
+Qed.
+
+Lemma recv_loop_suffix_ok : forall chunks code msgs buf c body b' ch',
+  recv_loop code msgs buf chunks = ROk c body b' ch' -> exists pre, chunks = pre ++ ch'.
+Proof.
+  induction chunks as [|ch chunks IH]; intros code msgs buf c body b' ch' H.
+  - rewrite recv_loop_nil in H. unfold batch_of in H.
+    destruct (scan code msgs (fst (split_lf buf))); inversion H; subst. exists []. reflexivity.
+  - rewrite recv_loop_cons in H. destruct (split_lf buf) as [ls tail].
+    destruct (scan code msgs ls) as [c1 m1 rest|rest|c1 m1].
+    + inversion H; subst. exists []. reflexivity.
+    + discriminate.
+    + destruct ch as [|b0 ch0]; [discriminate|]. apply IH in H. destruct H as [pre Hp].
+      exists ((b0 :: ch0) :: pre). rewrite Hp. reflexivity.
+Qed.
+
+Lemma bad_consumes : forall buf chunks b' ch',
+  recv_reply buf chunks = RBad b' ch' ->
+  exists pre, pre <> [] /\ buf ++ concat chunks = pre ++ b' ++ concat ch'.
+Proof.
+  intros buf chunks b' ch' H. unfold recv_reply in H.
+  pose proof (inc_batch chunks None [] buf) as I. rewrite H in I.
+  rewrite recv_loop_nil in I. unfold batch_of in I.
+  destruct (split_lf (buf ++ concat chunks)) as [ls tail] eqn:Es. cbn [fst snd] in I.
+  destruct (scan None [] ls) as [c1 m rest|rest|c1 m] eqn:Sc; try discriminate.
+  injection I as I1. apply scan_bad_inv in Sc. destruct Sc as [pre [E1 Hne]].
+  exists (unraw pre). split; [apply unraw_nonempty; apply Hne; reflexivity|].
+  destruct (split_lf_sound _ _ _ Es) as [S1 _]. rewrite <- S1. rewrite E1. rewrite unraw_app.
+  rewrite <- app_assoc. f_equal. exact I1.
+Qed.
+
 Section Sequence.
   Variable udigit uspace : N -> bool.
   Hypothesis Hd46 : udigit 46 = false.
@@ -1138,6 +1201,58 @@ Section ReplySends.
     intros ops t buf chunks Hok Hsd Hne Hs. apply written_roundtrip; try assumption.
     apply sent_inv; [exact Hd46|exact Hok|apply fresh_inv].
   Qed.
+  (* recv_reply keeps no state but recv_buffer: after a bad reply the refused lines are gone
+     (at least one), what follows is still there, and whatever well-formed replies follow are
+     returned exactly as by a fresh IO holding that buffer *)
+  Lemma bad_then_replies : forall buf chunks b' ch',
+    nonempty_chunks chunks ->
+    reply_recv udigit uspace buf chunks = BadReply b' ch' ->
+    (exists pre, pre <> [] /\ buf ++ concat chunks = pre ++ b' ++ concat ch') /\
+    nonempty_chunks ch' /\
+    forall rs t, Forall (good_reply uspace) rs -> b' ++ concat ch' = concat (map (wire1 udigit uspace) rs) ++ t ->
+      exists b'' ch'', recv_n udigit uspace (length rs) b' ch' = Some (map (shown udigit uspace) rs, b'', ch'') /\
+                       b'' ++ concat ch'' = t.
+  Proof.
+    intros buf chunks b' ch' Hne H. unfold reply_recv in H.
+    assert (G : (exists pre, pre <> [] /\ buf ++ concat chunks = pre ++ b' ++ concat ch') /\ exists p, chunks = p ++ ch').
+    { destruct (recv_reply buf chunks) as [c body b1 ch1|b1 ch1|] eqn:R.
+      - destruct (utf8_dec body) as [t0|].
+        + destruct (code_ok c); discriminate.
+        + inversion H; subst. split.
+          * destruct (ok_is_wellformed _ _ _ _ _ _ R) as [pre [txts [E [W _]]]].
+            exists (unraw pre). split; [apply unraw_nonempty; apply (wf_reply_lines_ne _ _ _ W)|exact E].
+          * unfold recv_reply in R. apply recv_loop_suffix_ok in R. exact R.
+      - inversion H; subst. split; [apply bad_consumes; exact R|].
+        unfold recv_reply in R. apply recv_loop_suffix_bad in R. exact R.
+      - discriminate. }
+    destruct G as [G1 [p Hp]]. split; [exact G1|].
+    assert (Hne' : nonempty_chunks ch').
+    { unfold nonempty_chunks in *. rewrite Hp in Hne. apply Forall_app in Hne. tauto. }
+    split; [exact Hne'|]. intros rs t Hg Hs.
+    exact (sequence_roundtrip udigit uspace Hd46 Hd48 Hs32 Hs10 Hs13 Hdisj rs t b' ch' Hg Hne' Hs).
+  Qed.
+
+  (* a failed write (UnicodeEncodeError) leaves nothing in the send buffer: the buffer of the
+     IO is exactly the writes that succeeded *)
+  Lemma rops_out_eq : forall ops r0,
+    rops_out udigit uspace r0 ops =
+    concat (map wire_of (filter can_encode (rops_sent udigit uspace r0 ops))).
+  Proof.
+    induction ops as [|o ops IH]; intros r0; [reflexivity|].
+    cbn [rops_out rops_sent]. rewrite IH. rewrite filter_app, map_app, concat_app. f_equal.
+    destruct o; try reflexivity. unfold send_chk. cbn [filter].
+    destruct (can_encode r0); cbn [map concat]; [rewrite app_nil_r|]; reflexivity.
+  Qed.
+
+  Lemma out_roundtrip : forall ops t buf chunks,
+    let W := filter can_encode (rops_sent udigit uspace fresh_reply ops) in
+    Forall (reply_inv udigit uspace) W -> Forall sendable W -> nonempty_chunks chunks ->
+    buf ++ concat chunks = rops_out udigit uspace fresh_reply ops ++ t ->
+    exists b' ch', recv_n udigit uspace (length W) buf chunks = Some (map shown_of W, b', ch') /\ b' ++ concat ch' = t.
+  Proof.
+    intros ops t buf chunks W Hi Hsd Hne Hs. rewrite rops_out_eq in Hs.
+    apply written_roundtrip; assumption.
+  Qed.
 End ReplySends.
 
 (* Examples for the setter operations (ASCII classes): the handler pattern
@@ -1165,4 +1280,13 @@ Example ops_send_copy_send :      (* Reply('250', 'Ok'); send; copy(Reply('503',
      [ROCode [50;53;48]; ROMsg [79;107]; ROSend;
       ROCopy (rops_run adigit aspace [ROCode [53;48;51]; ROMsg [53;46;53;46;49;32;66;97;100]]); ROSend])
   = [([50;53;48], [50;46;48;46;48;32;79;107]); ([53;48;51], [53;46;53;46;49;32;66;97;100])].
+Proof. vm_compute. reflexivity. Qed.
+Example ops_failed_send_writes_nothing :   (* Reply('550', "a\n<lone surrogate>"); send fails; copy(Reply('421', '4.3.0 E')); send *)
+  rops_out adigit aspace fresh_reply
+     [ROCode [53;53;48]; ROMsg [97;10;55296]; ROSend;
+      ROCopy (rops_run adigit aspace [ROCode [52;50;49]; ROMsg [52;46;51;46;48;32;69]]); ROSend]
+  = [52;50;49;32;52;46;51;46;48;32;69;13;10].
+Proof. vm_compute. reflexivity. Qed.
+Example bad_reply_hyp :    (* "ok\n250 x\r\n": the first line is refused and consumed, the reply behind it stays *)
+  reply_recv adigit aspace [111;107;10;50;53;48;32;120;13;10] [] = BadReply [50;53;48;32;120;13;10] [].
 Proof. vm_compute. reflexivity. Qed.
